@@ -258,3 +258,42 @@ func vh_C11_UtilInstance() {
 	vfAssert("value", got == interface{}(vfFn("K", vfFn("E", x))))
 	vfReach("end")
 }
+
+// left identity when the monad RETURNED by the bound function carries handlers of its own: Just(x).FlatMap(f) still
+// evaluates to what f(x) evaluates to, with f's inner effect run exactly once before the value is delivered
+func vh_C11_InnerHandlers() {
+	h := Handler.New()
+	x := vfInt("x")
+	inner := 0
+	which := vfChoose("inner-handlers", 3)
+	f := func(v int) *MonadIODef[int] {
+		m := MonadIONewGenerics(func() int { inner++; return vfFn("K", v) })
+		switch which {
+		case 0:
+			return m.ObserveOn(h)
+		case 1:
+			return m.SubscribeOn(h)
+		}
+		return m.ObserveOn(h).SubscribeOn(h)
+	}
+	var got int
+	onNext := 0
+	viaSubscribe := vfChoose("via", 2) == 1
+	if !vfNoPanic("nopanic", func() {
+		m := MonadIOJustGenerics(x).FlatMap(f)
+		if viaSubscribe {
+			m.Subscribe(Subscription[int]{OnNext: func(v int) { got = v; onNext++ }})
+		} else {
+			got = m.Eval()
+		}
+	}) {
+		return
+	}
+	vfQuiesce()
+	vfAssert("left-identity", got == vfFn("K", x))
+	vfAssert("effect-exactly-once", inner == 1)
+	if viaSubscribe {
+		vfAssert("onnext-exactly-once", onNext == 1)
+	}
+	vfReach("end")
+}
